@@ -213,7 +213,7 @@ static void ecdsa_specials(Stats &st, const Args &a) {
     }
     for (int cls = 0; cls < 4; cls++) if (!found[cls].empty()) {
       st.cls(std::string("ecdsa-special-base:") + (cls == 0 ? "full-width-r-and-s" : cls == 1 ? "short-r" : cls == 2 ? "short-s" : "short-r-and-s"));
-      for (int v = 0; v < 9; v++) for (int prov = 0; prov < 2; prov++) for (int cfg = 0; cfg < 4; cfg++) {
+      for (int v = 0; v < 10; v++) for (int prov = 0; prov < 2; prov++) for (int cfg = 0; cfg < 4; cfg++) {
         Case c; c.prov = prov; c.key = (int)ki; c.algi = ai; c.cfg = cfg; c.pay = 0; c.muts.push_back({M_EC_SPECIAL, v, 0, 0});
         c.token = apply(k, alg, 0, found[cls], c.muts[0]);
         std::string r = run_case(c, true);
